@@ -30,7 +30,7 @@ import time
 VERIF = os.path.dirname(os.path.dirname(os.path.abspath(__file__)))
 LEAN_DIR = os.path.join(VERIF, 'lean')
 REPO = os.environ.get('SKOOLKIT_REPO', '/repo')
-EVIDENCE_DIR = os.path.join(VERIF, 'evidence')
+EVIDENCE_DIR = os.environ.get('VERIF_EVIDENCE_DIR') or os.path.join(VERIF, 'evidence')
 REPLAY_DIR = os.path.join(VERIF, 'replay')
 KNOWN_FILE = os.path.join(VERIF, 'KNOWN_FINDINGS.txt')
 ALLOWED_AXIOMS = {'propext', 'Classical.choice', 'Quot.sound'}
